@@ -117,7 +117,7 @@ def byte_strings(tier):
         yield b""
         for a in range(256):
             yield bytes([a])
-        alpha = [0, 1, 65, 97, 127, 128, 191, 192, 194, 195, 169, 224, 237, 240, 244, 255]
+        alpha = [0, 1, 65, 97, 127, 128, 191, 192, 194, 195, 169, 224, 237, 240, 244, 255, 239, 187]     # 239 187 191 = the byte-order mark
         for L in (2, 3):
             for t in itertools.product(alpha, repeat=L):
                 yield bytes(t)
@@ -128,7 +128,7 @@ def byte_strings(tier):
         for a in range(256):
             for b in range(256):
                 yield bytes([a, b])
-        alpha = [0, 65, 128, 191, 194, 224, 237, 240, 244, 255, 160, 144]
+        alpha = [0, 65, 128, 191, 194, 224, 237, 240, 244, 255, 160, 144, 239, 187]
         for t in itertools.product(alpha, repeat=3):
             yield bytes(t)
         for t in itertools.product([240, 244, 144, 143, 128, 191, 65], repeat=4):
